@@ -404,6 +404,17 @@ def check_conflicts(seed, shard):
     l6 = copy.deepcopy(left)
     l6["measurements"][0]["config"]["parameters"] = [p for p in l6["measurements"][0]["config"]["parameters"] if p["name"] != "mu"] + [{"name": "mu", "bounds": [[0.0, 5.55]], "inits": [1.0]}]
     expect("outer/incompatible-parameter-config", lambda: pyhf.Workspace.combine(pyhf.Workspace(l6), pyhf.Workspace(r6), join="outer"), E.InvalidWorkspaceOperation)
+    # ... and a clash that sits only in the constraint settings (same inits, bounds and fixed flag): a parameter
+    # configured on both sides with another auxiliary datum / width
+    for key, va, vb in (("sigmas", [0.02], [0.05]), ("auxdata", [0.98], [1.03])):
+        cfg_a = {"name": "shared_cfg", "inits": [1.0], "bounds": [[0.5, 1.5]], "fixed": False, "auxdata": [1.0], "sigmas": [0.03]}
+        cfg_b = copy.deepcopy(cfg_a)
+        cfg_a[key], cfg_b[key] = va, vb
+        l8, r8 = copy.deepcopy(left), copy.deepcopy(right)
+        r8["measurements"] = [copy.deepcopy(left["measurements"][0])]
+        l8["measurements"][0]["config"]["parameters"] = l8["measurements"][0]["config"]["parameters"] + [cfg_a]
+        r8["measurements"][0]["config"]["parameters"] = r8["measurements"][0]["config"]["parameters"] + [cfg_b]
+        expect(f"outer/incompatible-parameter-config({key} only)", lambda a=l8, b=r8: pyhf.Workspace.combine(pyhf.Workspace(a), pyhf.Workspace(b), join="outer"), E.InvalidWorkspaceOperation)
     # versions
     r7 = copy.deepcopy(right)
     r7["version"] = "1.0.1"
